@@ -144,7 +144,7 @@ CLAIMED = True
 LEVEL_TEXT = ("Theorems (all circuits, all lists): the four checkers check_shape, check_cover, check_topo, check_independent are sound "
               "for the clauses of the property stated over paths of the fan-in-limited circuit (C17_checkers_sound: check_all L sgs = true "
               "-> sg_spec L sgs), and for the mirrored model the construction lemmas hold (every supergate is a restriction of the limited "
-              "circuit: types kept, fan-in = fan-in in L intersected with the node set, the root is an output). That the construction always "
+              "circuit: blackbox-free, exactly one output, types kept, fan-in a subset of the fan-in in L; the order clause for the model's own list). That the construction always "
               "passes the checkers (dominator-tree argument) is NOT proved (C17_full stays a Definition): per run the clauses are decided by "
               "the verified checkers on the list the implementation returned, i.e. translation validation. The super-circuit clause is "
               "oracle-level: after fill_blackbox of every supergate the circuit is compared with the original on all input valuations. "
